@@ -238,6 +238,17 @@ fn wait_answer(p: &mut Peer, sid: u32, secs: u64) -> Option<u8> {
     fr.iter().find(|x| x.sid == sid && x.t == T_HEADERS).and_then(|x| x.payload.first().copied())
 }
 
+/// sozu's SETTINGS_INITIAL_WINDOW_SIZE: what we may send on a stream before any credit (65535 when not announced)
+fn announced_stream_window(p: &Peer) -> i64 {
+    let mut win = 65535i64;
+    for f in p.early.iter().filter(|f| f.t == T_SETTINGS && f.flags & 1 == 0) {
+        for e in f.payload.chunks_exact(6).filter(|e| e[0] == 0 && e[1] == 4) {
+            win = u32::from_be_bytes([e[2], e[3], e[4], e[5]]) as i64;
+        }
+    }
+    win
+}
+
 fn main() {
     let args: Vec<String> = std::env::args().collect();
     let mode = args.get(1).cloned().unwrap_or_default();
@@ -277,7 +288,8 @@ fn main() {
             let dlen: usize = args.get(3).and_then(|x| x.parse().ok()).unwrap_or(10);
             let pad: usize = args.get(4).and_then(|x| x.parse().ok()).unwrap_or(255).min(255);
             let wire = 1 + dlen + pad;
-            let (mut win, mut conn_win) = (65535i64, 65535i64);
+            let announced = announced_stream_window(&p);
+            let (mut win, mut conn_win) = (announced, 65535i64);
             for f in &p.early {
                 if f.t == T_WU && f.sid == 0 && f.payload.len() == 4 {
                     conn_win += u32::from_be_bytes([f.payload[0], f.payload[1], f.payload[2], f.payload[3]]) as i64;
@@ -340,6 +352,10 @@ fn main() {
             }
             // tiny mode: the listener enlarges the connection window once (1 MiB - 65535) on top of what it consumes
             let allowance = if mode == "tiny" { (1i64 << 20) - 65535 } else { 0 };
+            // the stream buffers of the worker hold 16400 bytes (buffer_size 16393 rounded up by the pool): a larger stream window lets a DATA frame park the connection
+            if announced > 16400 {
+                println!("viol stream-window-over-buffer sozu announces a stream window of {announced} bytes for stream buffers of 16400 bytes (buffer_size 16393, rounded up by the pool)");
+            }
             if credit_stream > consumed || credit_conn > consumed + allowance {
                 println!("viol receiver-over-credit sozu credited more than it consumed: stream {credit_stream}, connection {credit_conn}, consumed {consumed}");
             }
@@ -370,7 +386,8 @@ fn main() {
         "shrink" => {
             // upload 200000 bytes respecting sozu's windows toward us
             let body = 200000usize;
-            let (mut win, mut conn_win) = (65535i64, 65535i64);
+            let announced = announced_stream_window(&p);
+            let (mut win, mut conn_win) = (announced, 65535i64);
             for f in &p.early {
                 if f.t == T_WU && f.sid == 0 && f.payload.len() == 4 {
                     conn_win += u32::from_be_bytes([f.payload[0], f.payload[1], f.payload[2], f.payload[3]]) as i64;
